@@ -412,24 +412,23 @@ PROPS["C18"] = {
     "drivers": [{"name": "c18", "n_quick": 12, "n_thorough": 400, "timeout": 3000}],
     "rule": "end to end: a real connection with tuning from {bound 1, 2, 16} x {high 1000, 8000, 50000} x {low 0, "
             "high/2}; 1-3 publisher threads, each with its own channel and 2500 publishes of 200 bytes to make; "
-            "the transport accepts nothing for 300 ms (publish counters sampled three times), in a third of the "
+            "the transport accepts nothing until every publish counter has stood still for 120 ms (4 s at most), in a third of the "
             "scenarios a channel is opened and used while throttled; then the transport reopens, everybody must "
             "finish, the connection is closed and the wire is split by the harness's own splitter. Afterwards, "
-            "alone: the adversarial schedule of the known finding (scheduling-point hook) and mem_channel_bound "
-            "= 0. Every scenario is non-trivial; distinct = distinct case term.",
+            "alone: the adversarial schedule of the repaired finding drain-overshoot (scheduling-point hook: I/O thread "
+            "slow inside its drain loop) and mem_channel_bound = 0. Every scenario is non-trivial; distinct = distinct case term.",
     "explanation": "C18_throttle_spec / C18_resumes_at_low / C18_stays_throttled / C18_throttles_above_high "
                    "(the hysteresis of the loop tail) and C01_write_interest / C01_mailbox_fifo / "
                    "C01_trace_conserves (nothing lost or reordered across throttling). Oracle: every publisher "
                    "stood still during the last part of the stall although it had plenty left; everybody "
                    "finished after the transport reopened; the wire is the header plus whole frames with every "
                    "channel's publishes exactly once and in order. The bytes accepted during the stall are "
-                   "compared with high + channels x (bound + 2) x message; exceeding it is the listed finding.",
+                   "compared with high + channels x (bound + 2) x message.",
     "trusted_base": L2_TRUSTED + ["blocking of a sender inside std's sync_channel, mio-extras readiness of its channels, "
                                   "mio edge-triggered (re)registration: library behaviour, sampled not modelled",
                                   "the loop-tail model (Model/Loop.v) is tied to the code only through these end-to-end "
                                   "runs: the tail is not callable in isolation and a hook may not refactor it"],
-    "assumptions": ["'bounded' is stated for the batch-granular throttle; the drain loop itself is unbounded under "
-                    "an adversarial schedule: known finding drain-overshoot"],
+    "assumptions": [],
 }
 
 # properties not claimed, with the reason (kept current)
